@@ -10,6 +10,15 @@ from . import wm_cases as WC
 
 def main():
     tier, seed, which = sys.argv[1], int(sys.argv[2]), sys.argv[3]
+    # states of real frames under this interpreter (f_lasti + logged truth) for the `live` kind
+    try:
+        d = {"_kind": "live", "which": which, "tier": tier, "seed": seed}
+        obs = WC.run_live(d)
+        if "live_error" not in obs:
+            data = WC.live_data()
+            sys.stdout.write(json.dumps(dict(d, ver=W.VER, pre={"obs": obs, "live": data})) + "\n")
+    except Exception as ex:  # noqa: BLE001
+        sys.stderr.write("live leg under this interpreter failed: %r\n" % (ex,))
     for d in WC.make_descs(tier, seed, which, alt=True):
         if d["_kind"] == "live":
             continue
